@@ -13,7 +13,7 @@ def NOT_REPRODUCED(msg=''):
     print('not reproduced', msg); sys.exit(0)
 
 
-p = Path(Line((1+0j), 0j), Line(0j, (7.450580596923828e-09+0j)), Line(0j, (1+0j)))
+p = Path(Line((2+0j), (1+0j)), QuadraticBezier(0j, 0j, 0j), QuadraticBezier(0j, (-7.450580596923828e-09+0j), 0j))
 opts = dict(useSandT=True, use_closed_attrib=False, rel=False)
 d = p.d(**opts)
 try:
